@@ -1108,7 +1108,9 @@ class EliminationConstraint(Constraint):
             if add:
                 minimized.append(obj.follow().fix())
         self.reference = self.reference.follow()
-        self.alternatives = minimized
+        # Fixing a later alternative may have bound a variable that is an
+        # earlier alternative
+        self.alternatives = [obj.follow() for obj in minimized]
 
     def fulfill(self) -> bool:
         if self.fulfilled:
